@@ -117,6 +117,16 @@ Notify(r, d, v) ==
     /\ last' = [e |-> "notify", r |-> r, d |-> d, v |-> v]
     /\ UNCHANGED <<cfg, avail, nRecv, active, tail, fin, lost, lostAct, ph, wire, ended>>
 
+(* notifyFinish() called from inside a notifyFinish callback of r: one more Deferred of r, which has to
+   fire exactly once like the others (None iff finished, failure iff lost while in the application). *)
+NotifyRequest(r, d) ==
+    /\ ~ended
+    /\ r \in 1..nRecv /\ d = Len(nf[r]) + 1
+    /\ \E x \in 1..Len(nf[r]) : nf[r][x] # "pending"          \* made while r's Deferreds are being fired
+    /\ nf' = [nf EXCEPT ![r] = Append(@, "pending")]
+    /\ last' = [e |-> "nfreq", r |-> r, d |-> d]
+    /\ UNCHANGED <<cfg, avail, nRecv, active, tail, fin, lost, lostAct, ph, wire, ended>>
+
 Lose ==
     /\ ~lost /\ ~ended
     /\ lost' = TRUE /\ lostAct' = active /\ active' = 0 /\ tail' = 0
@@ -166,6 +176,7 @@ Next == \/ \E k \in 0..2 : Deliver(k)
         \/ FinishCall(active)
         \/ LateFinish(lostAct)
         \/ \E r \in 1..nRecv : \E d \in 1..Len(nf[r]) : \E v \in {"none", "fail"} : Notify(r, d, v)
+        \/ \E r \in 1..nRecv : (Len(nf[r]) < 3 /\ NotifyRequest(r, Len(nf[r]) + 1))
         \/ Lose \/ Pause \/ Resume
         \/ Ret("ok") \/ Ret("EXC:RuntimeError")
         \/ End
